@@ -89,7 +89,10 @@ def gen_params(rng, tier):
             if hi > edges[0]:
                 near.append([None if rng.random() < 0.5 else edges[0], hi])
     xvals = [rng.choice(finite) for _ in range(6)]
-    return {"spec": spec, "xs": xs, "queries": queries, "near": near, "xvals": xvals, "seed2d": rng.randint(0, 10**9), "edges": edges}
+    return {"spec": spec, "xs": xs, "queries": queries, "near": near, "xvals": xvals, "seed2d": rng.randint(0, 10**9), "edges": edges,
+            # the views are also asked of derived states with the same content: a copy, a sum with the empty tree, a product
+            # by one, a pickled clone, a container reloaded from JSON
+            "derive": rng.choice(["none", "none", "none", "copy", "addzero", "mul1", "pickle", "reload"])}
 
 
 def rows_of(p):
@@ -101,7 +104,13 @@ def rows_of(p):
 
 
 def build(p):
-    ops = [("new", "h", p["spec"]), ("fills", "h", rows_of(p)), ("c13", p)]
+    ops = [("new", "h", p["spec"]), ("fills", "h", rows_of(p))]
+    dv = p.get("derive", "none")
+    if dv != "none":
+        # replaces h by an aggregator of identical content; the model's h is replaced the same way
+        ops += {"copy": [("copy", "h", "h")], "addzero": [("zero", "hz", "h"), ("add", "h", "h", "hz")], "mul1": [("mul", "h", "h", 1.0)],
+                "pickle": [("pickle", "h", "h")], "reload": [("roundtrip", "h", "h")]}[dv]
+    ops.append(("c13", p))
     return {"ops": ops, "expect": [("pycheck", "c13")]}
 
 
